@@ -695,6 +695,10 @@ def r3(ctx: Ctx, rl: RL) -> None:
     ti = truth_table(gF, ["auth"], cl_auth, inc)
     ts = truth_table(gF, ["auth"], cl_auth, setc)
     ctx.ob("C18.R3", F, "ordinary failure: the failure count is incremented on every path", ti[(False,)] == (True, True) and not ti[(True,)][0], fmt_table(["auth"], ti))
+    # ... and the failure handler does not opt out for some class of error: it has no raise / early return of its own
+    # (an attempt it declines to count is neither reported nor retried - the manager would never reconnect)
+    outs = [n for n in own_nodes(F.node) if isinstance(n, (ast.Raise, ast.Return))]
+    ctx.ob("C18.R3", F, "every failed attempt is counted: the failure handler has no raise or early return of its own", not outs, f"{[(n.lineno, norm(n)[:50]) for n in outs[:3]]}")
     ctx.ob("C18.R3", F, "auth/encryption failure: the count jumps to the maximum on every path", ts[(True,)] == (True, True) and not ts[(False,)][0], fmt_table(["auth"], ts))
     for n in inc:
         ok = isinstance(n.ast.op, ast.Add) and isinstance(n.ast.value, ast.Constant) and n.ast.value.value == 1
@@ -927,6 +931,14 @@ def r4(ctx: Ctx, rl: RL) -> None:
             for c in node_calls(n):
                 if norm(c.func).endswith("." + api):
                     ctx.ob("C18.R4", fn, c, bool(c.args) and norm(c.args[0]) == "self", "the manager registers itself", node=c)
+                    # ... on the instance the zeroconf manager hands out NOW (the manager closes an instance it created
+                    # itself when the logic is stopped; an instance remembered from an earlier run would be a dead one)
+                    recv = c.func.value  # type: ignore[union-attr]
+                    srcs = [recv]
+                    if isinstance(recv, ast.Name):
+                        srcs = [x.value for x in own_nodes(fn.node) if isinstance(x, (ast.Assign, ast.AnnAssign, ast.NamedExpr)) and x.value is not None and any(isinstance(t, ast.Name) and t.id == recv.id for t in (x.targets if isinstance(x, ast.Assign) else [x.target]))]
+                    fresh = bool(srcs) and all(any(isinstance(y, ast.Call) and isinstance(y.func, ast.Attribute) and y.func.attr == "get_async_zeroconf" for y in ast.walk(sx)) for sx in srcs)
+                    ctx.ob("C18.R4", fn, f"{api}: the instance comes from the zeroconf manager at this call", fresh, f"receiver {[norm(sx)[:50] for sx in srcs]}: an instance cached on the reconnect logic outlives the manager's own (closed on stop)", node=c)
     lw = [(f, st) for f in ctx.repo.all_funcs() for st, tgt, val in attr_writes(f, "_zc_listening")]
     for f, st in lw:
         ctx.ob("C18.R4", f, st, f in (rl.init, listen, unlisten), "unexpected writer of the listening flag", node=st)
